@@ -189,7 +189,7 @@ fn word(r: &mut StdRng) -> String {
 
 fn boost(r: &mut StdRng, cfg: &GenCfg) -> Option<f32> {
   if cfg.boosts && chance(r, 1, 3) {
-    Some(*pick(r, &[0.5f32, 2.0, 1.5, 3.0]))
+    Some(*pick(r, &[0.5f32, 2.0, 1.5, 3.0, 0.0, 2.0]))
   } else {
     None
   }
